@@ -75,6 +75,19 @@ func (r *Run) chanIdent(v ssa.Value, depth int) string {
 			return shortStruct(namedOf(x.X.Type())) + "." + f.Name()
 		}
 	case *ssa.MakeChan:
+		// a channel made for a field of an object (`closeCh: make(chan struct{})`) is that field's
+		// channel, whichever function of the constructor holds the make
+		if refs := x.Referrers(); refs != nil {
+			for _, ref := range *refs {
+				if st, ok := ref.(*ssa.Store); ok && st.Val == ssa.Value(x) {
+					if fa, ok := st.Addr.(*ssa.FieldAddr); ok {
+						if f := fieldOf(fa); f != nil {
+							return shortStruct(namedOf(fa.X.Type())) + "." + f.Name()
+						}
+					}
+				}
+			}
+		}
 		return "local " + shortType(x.Type()) + " of " + fnName(topFn(x.Parent()))
 	case *ssa.Parameter:
 		fn := x.Parent()
@@ -165,27 +178,28 @@ func (r *Run) collectChanOps(skipAMR bool) []chanOp {
 
 // chanProtocol: the frozen protocol — "function | channel | kind" → count, reason.
 var chanProtocol = map[string]tabEntry{
-	"pebbles.(*Gateway).newSubscriptionEntry | local chan struct{} of pebbles.(*Gateway).newSubscriptionEntry | make":           {2, "closeCh and queryerCloseCh, unbuffered"},
-	"pebbles.(*Gateway).newSubscriptionEntry | local chan *requests.Response of pebbles.(*Gateway).newSubscriptionEntry | make": {1, "respCh, unbuffered"},
-	"pebbles.(*subscriptionEntry).Close | subscriptionEntry.closeCh | send":                                                     {1, "stop request: blocking rendezvous with Listen's select"},
-	"pebbles.(*subscriptionEntry).Listen | subscriptionEntry.respCh | select-recv":                                              {1, "event loop"},
-	"pebbles.(*subscriptionEntry).Listen | subscriptionEntry.closeCh | select-recv":                                             {1, "event loop: stop request"},
-	"pebbles.(*subscriptionEntry).Listen$1 | subscriptionEntry.queryerCloseCh | send":                                           {1, "tells the upstream closer goroutine to close the upstream connection (blocking rendezvous)"},
-	"pebbles.(*subscriptionEntry).Listen | subscriptionEntry.queryerCloseCh | close":                                            {1, "closed by its only sender after its only send"},
-	"pebbles.(*subscriptionEntry).Listen | subscriptionEntry.closeCh | close":                                                   {1, "closed by the receiver; a stop request blocked in its send ends under Close's recover (repair 24353ad; R8a.own computes it)"},
-	"pebbles.(*subscriptionEntry).Listen | subscriptionEntry.respCh | close":                                                    {1, "closed by the receiver; every send of the upstream reader is under a recover of its own goroutine (repair 29cb2f6; R8a.own computes it)"},
-	"pebbles.sendHeartbeat | Ticker.C | select-recv":                                                                            {1, "keep-alive tick"},
-	"pebbles.sendHeartbeat | result of context.Context.Done | select-recv":                                                      {1, "cancelled when the handler returns"},
-	"queryer.(*MultiOpQueryer).Subscribe | local chan error of queryer.(*MultiOpQueryer).Subscribe | make":                      {1, "errCh: result of the upstream handshake"},
-	"queryer.(*MultiOpQueryer).Subscribe | local chan error of queryer.(*MultiOpQueryer).Subscribe | close":                     {1, "deferred; after the single receive"},
-	"queryer.(*MultiOpQueryer).Subscribe | local chan error of queryer.(*MultiOpQueryer).Subscribe | recv":                      {1, "waits for the handshake result"},
-	"queryer.(*MultiOpQueryer).Subscribe$1 | subscriptionEntry.queryerCloseCh | select-recv":                                    {1, "upstream closer: waits for Listen's teardown send — or for the handshake to fail, in which case no Listen exists and nothing would ever be sent (repair 75a29bd)"},
-	"queryer.(*MultiOpQueryer).Subscribe$1 | local chan struct{} of queryer.(*MultiOpQueryer).Subscribe | select-recv":          {1, "handshake failed: closed by Subscribe on its error return"},
-	"queryer.(*MultiOpQueryer).Subscribe | local chan struct{} of queryer.(*MultiOpQueryer).Subscribe | make":                   {1, "failed: signals the closer that nobody is going to listen"},
-	"queryer.(*MultiOpQueryer).Subscribe | local chan struct{} of queryer.(*MultiOpQueryer).Subscribe | close":                  {1, "on the error return only, never sent on"},
-	"queryer.(*MultiOpQueryer).Subscribe$2 | local chan error of queryer.(*MultiOpQueryer).Subscribe | send":                    {-1, "exactly one handshake result per run: every send is followed by the reader's return or by the read loop, none lies in a cycle and none is reachable from another (computed: singleShotSends), so the number of failure exits that send is layout"},
-	"queryer.(*MultiOpQueryer).Subscribe$2 | subscriptionEntry.respCh | send":                                                   {-2, "events, upstream error payloads (list form, single-object form) and the reason why the stream ends (connection lost, undecodable frame, error frame without an error), in arrival order"},
-	"queryer.(*MultiOpQueryer).Subscribe$2$1 | subscriptionEntry.respCh | send":                                                 {-2, "nil = upstream finished; sent only when the handshake had succeeded (somebody listens); inside a deferred function with nested recover"},
+	"pebbles.(*Gateway).newSubscriptionEntry | subscriptionEntry.closeCh | make":                                       {1, "made once per entry by its constructor"},
+	"pebbles.(*Gateway).newSubscriptionEntry | subscriptionEntry.queryerCloseCh | make":                                {1, "made once per entry by its constructor"},
+	"pebbles.(*Gateway).newSubscriptionEntry | subscriptionEntry.respCh | make":                                        {1, "made once per entry by its constructor"},
+	"pebbles.(*subscriptionEntry).Close | subscriptionEntry.closeCh | send":                                            {1, "stop request: blocking rendezvous with Listen's select"},
+	"pebbles.(*subscriptionEntry).Listen | subscriptionEntry.respCh | select-recv":                                     {1, "event loop"},
+	"pebbles.(*subscriptionEntry).Listen | subscriptionEntry.closeCh | select-recv":                                    {1, "event loop: stop request"},
+	"pebbles.(*subscriptionEntry).Listen$1 | subscriptionEntry.queryerCloseCh | send":                                  {1, "tells the upstream closer goroutine to close the upstream connection (blocking rendezvous)"},
+	"pebbles.(*subscriptionEntry).Listen | subscriptionEntry.queryerCloseCh | close":                                   {1, "closed by its only sender after its only send"},
+	"pebbles.(*subscriptionEntry).Listen | subscriptionEntry.closeCh | close":                                          {1, "closed by the receiver; a stop request blocked in its send ends under Close's recover (repair 24353ad; R8a.own computes it)"},
+	"pebbles.(*subscriptionEntry).Listen | subscriptionEntry.respCh | close":                                           {1, "closed by the receiver; every send of the upstream reader is under a recover of its own goroutine (repair 29cb2f6; R8a.own computes it)"},
+	"pebbles.sendHeartbeat | Ticker.C | select-recv":                                                                   {1, "keep-alive tick"},
+	"pebbles.sendHeartbeat | result of context.Context.Done | select-recv":                                             {1, "cancelled when the handler returns"},
+	"queryer.(*MultiOpQueryer).Subscribe | local chan error of queryer.(*MultiOpQueryer).Subscribe | make":             {1, "errCh: result of the upstream handshake"},
+	"queryer.(*MultiOpQueryer).Subscribe | local chan error of queryer.(*MultiOpQueryer).Subscribe | close":            {1, "deferred; after the single receive"},
+	"queryer.(*MultiOpQueryer).Subscribe | local chan error of queryer.(*MultiOpQueryer).Subscribe | recv":             {1, "waits for the handshake result"},
+	"queryer.(*MultiOpQueryer).Subscribe$1 | subscriptionEntry.queryerCloseCh | select-recv":                           {1, "upstream closer: waits for Listen's teardown send — or for the handshake to fail, in which case no Listen exists and nothing would ever be sent (repair 75a29bd)"},
+	"queryer.(*MultiOpQueryer).Subscribe$1 | local chan struct{} of queryer.(*MultiOpQueryer).Subscribe | select-recv": {1, "handshake failed: closed by Subscribe on its error return"},
+	"queryer.(*MultiOpQueryer).Subscribe | local chan struct{} of queryer.(*MultiOpQueryer).Subscribe | make":          {1, "failed: signals the closer that nobody is going to listen"},
+	"queryer.(*MultiOpQueryer).Subscribe | local chan struct{} of queryer.(*MultiOpQueryer).Subscribe | close":         {1, "on the error return only, never sent on"},
+	"queryer.(*MultiOpQueryer).Subscribe$2 | local chan error of queryer.(*MultiOpQueryer).Subscribe | send":           {-1, "exactly one handshake result per run: every send is followed by the reader's return or by the read loop, none lies in a cycle and none is reachable from another (computed: singleShotSends), so the number of failure exits that send is layout"},
+	"queryer.(*MultiOpQueryer).Subscribe$2 | subscriptionEntry.respCh | send":                                          {-2, "events, upstream error payloads (list form, single-object form) and the reason why the stream ends (connection lost, undecodable frame, error frame without an error), in arrival order"},
+	"queryer.(*MultiOpQueryer).Subscribe$2$1 | subscriptionEntry.respCh | send":                                        {-2, "nil = upstream finished; sent only when the handshake had succeeded (somebody listens); inside a deferred function with nested recover"},
 }
 
 // chanOwnership: channels whose closer is not their only sender — reason or finding.
@@ -934,14 +948,60 @@ func ruleEventPath(r *Run) {
 			if f == "isClosed" {
 				continue
 			}
-			_, fresh := fa.X.(*ssa.Alloc)
-			if fresh && fa.X.(*ssa.Alloc).Parent() == fn {
-				r.OK("R3d", fnName(fn), "store subscriptionEntry."+f, r.P.pos(st.Pos()), "constructor: the entry was allocated in this function")
+			if freshObject(fn, fa.X, 0) {
+				r.OK("R3d", fnName(fn), "store subscriptionEntry."+f, r.P.pos(st.Pos()), "constructor: the entry was allocated in this function (or by a helper that allocates it and hands it to nobody else)")
 			} else {
 				r.Bad("R3d", fnName(fn), "store subscriptionEntry."+f, r.P.pos(st.Pos()), "a field of a live subscription entry (other than isClosed) is rewritten after construction: ids/channels/plan of a running subscription must not change")
 			}
 		}
 	}
+}
+
+// freshObject: v, used in fn, is an object this activation of fn has just made: an allocation of
+// fn itself, or the result of a module function every return of which is an allocation of its
+// own that it hands to nobody but its caller (`subEntry := newEntry(id)`: only fields are set
+// before it is returned).
+func freshObject(fn *ssa.Function, v ssa.Value, depth int) bool {
+	switch x := v.(type) {
+	case *ssa.Alloc:
+		return x.Parent() == fn
+	case *ssa.Call:
+		sc := x.Call.StaticCallee()
+		if x.Parent() != fn || sc == nil || !inModule(sc) || sc.Blocks == nil || depth > 2 {
+			return false
+		}
+		rets := returnsOf(sc)
+		if len(rets) == 0 {
+			return false
+		}
+		for _, ret := range rets {
+			vals := retVals(ret)
+			if len(vals) != 1 {
+				return false
+			}
+			switch y := vals[0].(type) {
+			case *ssa.Alloc:
+				if y.Parent() != sc || y.Referrers() == nil {
+					return false
+				}
+				for _, ref := range *y.Referrers() {
+					switch ref.(type) {
+					case *ssa.FieldAddr, *ssa.Return, *ssa.DebugRef:
+					default:
+						return false // stored, captured or passed on before it is returned
+					}
+				}
+			case *ssa.Call:
+				if !freshObject(sc, y, depth+1) {
+					return false
+				}
+			default:
+				return false
+			}
+		}
+		return true
+	}
+	return false
 }
 
 // throughCell looks through a load of a single-assignment local cell (a parameter that is
@@ -970,7 +1030,7 @@ func ruleUpstreamForward(r *Run) {
 	for _, fn := range withClosures(sub) {
 		reads := false
 		for _, ins := range allInstrs(fn) {
-			if c, ok := ins.(*ssa.Call); ok && strings.HasSuffix(calleeName(&c.Call), "wsutil.ReadServerText") {
+			if c, ok := ins.(*ssa.Call); ok && frameRead(&c.Call, 0) {
 				reads = true
 			}
 		}
@@ -1058,17 +1118,16 @@ func ruleUpstreamForward(r *Run) {
 			nErr++
 			// what is sent has to say that something failed: a response built here with its
 			// Errors filled in (the frame's own payload read as a response carries none)
+			// Filled in means: known to hold an error on every way to the send — a list made
+			// from an error that is not nil, a literal whose elements are not nil, a decoded list
+			// that was tested; not a variable that is nil on one of the paths.
 			okFwd, _ := mustPass(iff.Block().Succs[0], 0, func(i ssa.Instruction) bool {
-				snd, isSend := i.(*ssa.Send)
-				if !isSend {
-					return false
-				}
-				ev, ok := sentErrors(snd.X)
-				return ok && !isNilConst(unwrap(ev))
+				ev, at, ok := r.sentErrorsAt(i, 0)
+				return ok && r.carriesError(ev, at, 0)
 			})
 			r.Check(okFwd, "R12b.err", fnName(fn), "upstream "+which+" frame forwarded", r.P.pos(iff.Cond.Pos()),
-				"a response with its errors filled in is sent on the result channel before the reader returns",
-				"an upstream frame of type "+which+" ends the reader without a response that carries an error being sent on the result channel: the subscriber is told nothing — no error, no completion — or gets an event with neither data nor errors")
+				"a response whose error list holds an error on every path (made from a non-nil error, a literal of non-nil elements, or a decoded list tested to be non-empty and free of nulls) is sent on the result channel before the reader returns",
+				"an upstream frame of type "+which+" ends the reader without a response that is known to carry an error being sent on the result channel (nothing is sent, or the error list sent can be nil, empty or hold a nil entry on some path): the subscriber is told nothing — no error, no completion — or gets an event with neither data nor errors")
 		}
 	}
 	r.AtLeast("R12b.err", "upstream error-frame cases in the reader", nErr, 1)
@@ -1079,72 +1138,61 @@ func ruleUpstreamForward(r *Run) {
 	nList := 0
 	for _, fn := range withClosures(sub) {
 		for _, ins := range allInstrs(fn) {
-			snd, ok := ins.(*ssa.Send)
+			// a send, or a call of a helper that sends what it is handed (`fail(errs)`)
+			errsVal, at, ok := r.sentErrorsAt(ins, 0)
 			if !ok {
 				continue
 			}
-			errsVal, ok := sentErrors(snd.X)
-			if !ok {
-				continue
-			}
-			counted, guarded := decodedListGuarded(snd.Block(), errsVal, 0)
+			counted, guarded := decodedListGuarded(at, errsVal, 0)
 			if !counted {
 				continue // built here (a literal, FormatError): not taken from a frame
 			}
 			nList++
-			r.Check(guarded, "R12b.err.empty", fnName(fn), "decoded error list handed on", r.P.pos(snd.Pos()),
-				"the length of the decoded list is tested before the list is handed on as the upstream's errors",
-				"an error list decoded from an upstream frame is handed on without its length being tested: a frame such as {\"type\":\"data\",\"payload\":[]} decodes as an error frame with no errors and reaches the subscriber as an event with neither data nor an error")
+			r.Check(guarded, "R12b.err.empty", fnName(fn), "decoded error list handed on", r.P.pos(ins.Pos()),
+				"the decoded list is tested to be non-empty and to hold no null before it is handed on as the upstream's errors",
+				"an error list decoded from an upstream frame is handed on without having been tested to be non-empty and free of null entries: a frame such as {\"type\":\"data\",\"payload\":[]} or {\"type\":\"error\",\"payload\":[null]} decodes as an error frame with no errors and reaches the subscriber as an event with neither data nor an error")
 		}
 	}
 	r.AtLeast("R12b.err.empty", "decoded error lists handed on by the reader", nList, 1)
 	// R12b.end: the reader tells Listen that the stream is over (a nil response) on EVERY way
 	// out, not only when the upstream says `complete`: the send sits in a function the reader
 	// defers before anything can make it return (third audit: moved into the `complete` case,
-	// a dropped upstream connection left Listen waiting for ever)
+	// a dropped upstream connection left Listen waiting for ever) — itself or in a helper that
+	// function calls — and nothing but the handshake flag decides whether it is executed (fifth
+	// audit: `if started && !reported`, with reported set after an error response)
 	nEnd := 0
-	for _, fn := range withClosures(sub) {
+	syncOnly := func(e *Edge) bool { _, isGo := e.Site.(*ssa.Go); return isGo }
+	var endRegion []*ssa.Function
+	for fn := range r.P.CG.Reachable(withClosures(sub), syncOnly) {
+		endRegion = append(endRegion, fn)
+	}
+	sort.Slice(endRegion, func(i, j int) bool { return fnName(endRegion[i]) < fnName(endRegion[j]) })
+	for _, fn := range endRegion {
 		for _, ins := range allInstrs(fn) {
 			snd, ok := ins.(*ssa.Send)
 			if !ok || !isNilConst(unwrap(snd.X)) || !strings.Contains(snd.Chan.Type().String(), "requests.Response") {
 				continue
 			}
 			nEnd++
-			good := false
-			if parent := fn.Parent(); parent != nil {
-				for _, i2 := range allInstrs(parent) {
-					d, ok := i2.(*ssa.Defer)
-					if !ok {
-						continue
-					}
-					mc, _ := d.Call.Value.(*ssa.MakeClosure)
-					if (d.Call.StaticCallee() == fn) || (mc != nil && mc.Fn == ssa.Value(fn)) {
-						all := true
-						for _, ret := range returnsOf(parent) {
-							if !instrDominates(d, ret) {
-								all = false
-							}
-						}
-						good = all
-					}
-				}
-			}
+			good := r.endSignalled(fn, snd, 0)
 			r.Check(good, "R12b.end", fnName(fn), "end of stream signalled on every exit", r.P.pos(snd.Pos()),
-				"the nil response is sent by a function the reader defers ahead of all its returns",
-				"the reader signals the end of the stream (nil response) only on some of its exits: when it leaves another way — the upstream connection drops, a frame cannot be decoded — Listen keeps waiting for a stream that is over, and the subscription and its goroutines stay behind")
+				"the nil response is sent on every path through a function the reader defers ahead of all its returns (directly or through a helper called there); the only condition around it is a flag that is set once, before the first frame is read — until then nobody listens",
+				"the reader signals the end of the stream (nil response) only on some of its exits — the send is not in a function deferred ahead of every return, or it sits behind a condition other than the flag that is set once before the first frame is read: when the reader leaves another way — the upstream connection drops, a frame cannot be decoded — Listen keeps waiting for a stream that is over, and the subscription and its goroutines stay behind")
 		}
 	}
 	r.AtLeast("R12b.end", "end-of-stream signals of the reader", nEnd, 1)
 	// R12b.skip: what kind of frame was read is decided on the decoded message, not on the
 	// bytes of the frame: a branch whose condition looks into the raw frame (bytes.Contains,
 	// a prefix test, a helper handed the bytes that does not decode them) and one side of which
-	// reads the next frame without the frame having gone through the decoder drops every frame
-	// whose payload happens to look like the pattern. The length of the frame is not its text.
+	// reads the next frame — or leaves the reader — without the frame having gone through the
+	// decoder drops every frame whose payload happens to look like the pattern. The same holds
+	// for its length: a length test may guard an index, it does not decide that a frame is not
+	// worth decoding.
 	nRead := 0
 	for _, fn := range withClosures(sub) {
 		for _, ins := range allInstrs(fn) {
 			rd, ok := ins.(*ssa.Call)
-			if !ok || !strings.Contains(calleeName(&rd.Call), "wsutil.Read") {
+			if !ok || !frameRead(&rd.Call, 0) {
 				continue
 			}
 			loop := innermostLoop(rd.Block())
@@ -1178,8 +1226,10 @@ func ruleUpstreamForward(r *Run) {
 					}
 					return raw(x.Tuple, depth+1)
 				case *ssa.Call:
-					if b, ok := x.Call.Value.(*ssa.Builtin); ok && (b.Name() == "len" || b.Name() == "cap") {
-						return false
+					if x == rd {
+						_, isBytes := x.Type().Underlying().(*types.Slice)
+						bt, isStr := x.Type().Underlying().(*types.Basic)
+						return isBytes || (isStr && bt.Info()&types.IsString != 0)
 					}
 					if decodes(r, &x.Call, 0) {
 						return false
@@ -1202,7 +1252,12 @@ func ruleUpstreamForward(r *Run) {
 				return false
 			}
 			nIf := 0
+			var loopBlocks []*ssa.BasicBlock
 			for b := range loop {
+				loopBlocks = append(loopBlocks, b)
+			}
+			sort.Slice(loopBlocks, func(i, j int) bool { return loopBlocks[i].Index < loopBlocks[j].Index })
+			for _, b := range loopBlocks {
 				iff, ok := b.Instrs[len(b.Instrs)-1].(*ssa.If)
 				if !ok || !instrDominates(rd, iff) {
 					continue
@@ -1212,12 +1267,11 @@ func ruleUpstreamForward(r *Run) {
 					continue
 				}
 				nIf++
+				// both sides, the one that leaves the loop included: a frame the reader gives up on
+				// without decoding it is as lost as one it skips
 				good := true
 				for _, s := range b.Succs {
-					if !loop[s] {
-						continue
-					}
-					if ok2, _ := mustPassUntil(s, rd.Block(), isDecode); !ok2 {
+					if !decodedBefore(s, rd.Block(), isDecode) {
 						good = false
 					}
 				}
@@ -1226,11 +1280,11 @@ func ruleUpstreamForward(r *Run) {
 					key += "#" + strconv.Itoa(nIf)
 				}
 				r.Check(good, "R12b.skip", fnName(fn), key, r.P.pos(iff.Cond.Pos()),
-					"the branch looks at the raw frame, but both sides still run the frame through the decoder before the next read",
-					"a branch on the raw bytes of an upstream frame goes on to the next read without decoding the frame: a data frame whose payload happens to contain the pattern is dropped, and the event never reaches the subscriber")
+					"the branch looks at the raw frame (its bytes or its length), but both sides still run the frame through the decoder before the next read or the end of the reader",
+					"a branch on the raw bytes or the length of an upstream frame goes on to the next read, or ends the reader, without decoding the frame: a data frame whose payload happens to contain the pattern (or to have that size) is dropped, and the event never reaches the subscriber")
 			}
 			if nIf == 0 {
-				r.OK("R12b.skip", fnName(fn), "frame kind decided on the decoded message", r.P.pos(rd.Pos()), "no branch of the read loop depends on the raw bytes of the frame (its length and the decoder apart)")
+				r.OK("R12b.skip", fnName(fn), "frame kind decided on the decoded message", r.P.pos(rd.Pos()), "no branch of the read loop depends on the raw bytes of the frame or on its length (the decoder apart)")
 			}
 		}
 	}
@@ -1315,27 +1369,35 @@ func decodedListGuarded(at *ssa.BasicBlock, v ssa.Value, depth int) (counted, gu
 		s2, ok := l2.X.(*ssa.FieldAddr)
 		return ok && s2.X == src.X && s2.Field == src.Field
 	}
+	// both tests: a decoded list can be empty, and it can hold nulls (`payload: [null]`)
+	nonEmpty, noNil := false, false
 	for _, i2 := range allInstrs(at.Parent()) {
 		iff, ok := i2.(*ssa.If)
 		if !ok {
 			continue
 		}
-		// which side of the branch is only taken for a non-empty list
-		pos, neg := nonEmptyTest(iff.Cond, sameList, 0)
-		var side *ssa.BasicBlock
-		switch {
-		case pos:
-			side = iff.Block().Succs[0]
-		case neg:
-			side = iff.Block().Succs[1]
-		default:
-			continue
-		}
-		if len(side.Preds) == 1 && (side == at || side.Dominates(at)) {
-			guarded = true
+		for k, test := range []func(ssa.Value, func(ssa.Value) bool, int) (bool, bool){nonEmptyTest, noNilTest} {
+			// which side of the branch is only taken for a non-empty (nil-free) list
+			pos, neg := test(iff.Cond, sameList, 0)
+			var side *ssa.BasicBlock
+			switch {
+			case pos:
+				side = iff.Block().Succs[0]
+			case neg:
+				side = iff.Block().Succs[1]
+			default:
+				continue
+			}
+			if len(side.Preds) == 1 && (side == at || side.Dominates(at)) {
+				if k == 0 {
+					nonEmpty = true
+				} else {
+					noNil = true
+				}
+			}
 		}
 	}
-	return true, guarded
+	return true, nonEmpty && noNil
 }
 
 // decodes: the call hands its argument to encoding/json (Unmarshal, a Decoder), directly or in
@@ -1416,46 +1478,85 @@ func ruleSubscriptionRegistry(r *Run) {
 // negation, and a predicate of the module whose answer can be true only behind such a test of
 // its parameter (`func carriesErrors(l) bool { return len(l) != 0 && … }`).
 func nonEmptyTest(cond ssa.Value, isList func(ssa.Value) bool, depth int) (pos, neg bool) {
+	return listTest(cond, isList, lenTest, depth)
+}
+
+// noNilTest does the same for "the list holds no nil element": pos = "true only if no element
+// is nil", neg = "false only if no element is nil". The test itself is lo.Contains(list, nil) /
+// slices.Contains(list, nil) (true when there IS a nil element).
+func noNilTest(cond ssa.Value, isList func(ssa.Value) bool, depth int) (pos, neg bool) {
+	return listTest(cond, isList, containsNilTest, depth)
+}
+
+func lenTest(cond ssa.Value, isList func(ssa.Value) bool) (pos, neg bool) {
+	c, ok := cond.(*ssa.BinOp)
+	if !ok {
+		return false, false
+	}
+	lenOf := func(v ssa.Value) bool {
+		cl, ok := v.(*ssa.Call)
+		if !ok {
+			return false
+		}
+		b, ok := cl.Call.Value.(*ssa.Builtin)
+		return ok && b.Name() == "len" && isList(cl.Call.Args[0])
+	}
+	op, x, y := c.Op, c.X, c.Y
+	if lenOf(y) { // constant on the left: mirror
+		x, y = y, x
+		switch op {
+		case token.LSS:
+			op = token.GTR
+		case token.GTR:
+			op = token.LSS
+		case token.LEQ:
+			op = token.GEQ
+		case token.GEQ:
+			op = token.LEQ
+		}
+	}
+	if !lenOf(x) {
+		return false, false
+	}
+	switch {
+	case op == token.NEQ && isIntConst(y, 0), op == token.GTR && isIntConst(y, 0), op == token.GEQ && isIntConst(y, 1):
+		return true, false
+	case op == token.EQL && isIntConst(y, 0), op == token.LSS && isIntConst(y, 1), op == token.LEQ && isIntConst(y, 0):
+		return false, true
+	}
+	return false, false
+}
+
+func containsNilTest(cond ssa.Value, isList func(ssa.Value) bool) (pos, neg bool) {
+	c, ok := cond.(*ssa.Call)
+	if !ok || len(c.Call.Args) != 2 {
+		return false, false
+	}
+	switch calleeName(&c.Call) {
+	case "github.com/samber/lo.Contains", "slices.Contains":
+	default:
+		return false, false
+	}
+	if isList(c.Call.Args[0]) && isNilConst(unwrap(c.Call.Args[1])) {
+		return false, true
+	}
+	return false, false
+}
+
+// listTest: base recognises the elementary test; negation and predicates of the module whose
+// answer can be true only behind such a test of their parameter are looked through here.
+func listTest(cond ssa.Value, isList func(ssa.Value) bool, base func(ssa.Value, func(ssa.Value) bool) (bool, bool), depth int) (pos, neg bool) {
 	if depth > 3 {
 		return false, false
+	}
+	if p, n := base(cond, isList); p || n {
+		return p, n
 	}
 	switch c := cond.(type) {
 	case *ssa.UnOp:
 		if c.Op == token.NOT {
-			p, n := nonEmptyTest(c.X, isList, depth+1)
+			p, n := listTest(c.X, isList, base, depth+1)
 			return n, p
-		}
-	case *ssa.BinOp:
-		lenOf := func(v ssa.Value) bool {
-			cl, ok := v.(*ssa.Call)
-			if !ok {
-				return false
-			}
-			b, ok := cl.Call.Value.(*ssa.Builtin)
-			return ok && b.Name() == "len" && isList(cl.Call.Args[0])
-		}
-		op, x, y := c.Op, c.X, c.Y
-		if lenOf(y) { // constant on the left: mirror
-			x, y = y, x
-			switch op {
-			case token.LSS:
-				op = token.GTR
-			case token.GTR:
-				op = token.LSS
-			case token.LEQ:
-				op = token.GEQ
-			case token.GEQ:
-				op = token.LEQ
-			}
-		}
-		if !lenOf(x) {
-			return false, false
-		}
-		switch {
-		case op == token.NEQ && isIntConst(y, 0), op == token.GTR && isIntConst(y, 0), op == token.GEQ && isIntConst(y, 1):
-			return true, false
-		case op == token.EQL && isIntConst(y, 0), op == token.LSS && isIntConst(y, 1), op == token.LEQ && isIntConst(y, 0):
-			return false, true
 		}
 	case *ssa.Call:
 		sc := c.Call.StaticCallee()
@@ -1468,13 +1569,13 @@ func nonEmptyTest(cond ssa.Value, isList func(ssa.Value) bool, depth int) (pos, 
 			}
 			param := sc.Params[i]
 			isParam := func(v ssa.Value) bool { return unwrap(v) == ssa.Value(param) }
-			// the block of the predicate that is entered only for a non-empty parameter
+			// the block of the predicate that is entered only for a parameter that passes the test
 			for _, ins := range allInstrs(sc) {
 				iff, ok := ins.(*ssa.If)
 				if !ok {
 					continue
 				}
-				p, n := nonEmptyTest(iff.Cond, isParam, depth+1)
+				p, n := listTest(iff.Cond, isParam, base, depth+1)
 				var ok2 *ssa.BasicBlock
 				if p {
 					ok2 = iff.Block().Succs[0]
@@ -1494,11 +1595,38 @@ func nonEmptyTest(cond ssa.Value, isList func(ssa.Value) bool, depth int) (pos, 
 					return true, false
 				}
 			}
-			// `return len(l) != 0` without a branch
-			for _, ret := range returnsOf(sc) {
-				if p, _ := nonEmptyTest(retVals(ret)[0], isParam, depth+1); p && len(returnsOf(sc)) == 1 {
-					return true, false
+			// without a branch on the test itself: `return len(l) != 0`, or the test as one
+			// operand of && (`return len(l) != 0 && !lo.Contains(l, nil)`: false, or the value of
+			// the last operand)
+			var onlyIf func(v ssa.Value, d int) bool
+			onlyIf = func(v ssa.Value, d int) bool {
+				if p, _ := listTest(v, isParam, base, depth+1); p {
+					return true
 				}
+				switch x := v.(type) {
+				case *ssa.Const:
+					return x.Value != nil && x.Value.ExactString() == "false"
+				case *ssa.Phi:
+					if d > 3 {
+						return false
+					}
+					for _, e := range x.Edges {
+						if !onlyIf(e, d+1) {
+							return false
+						}
+					}
+					return len(x.Edges) > 0
+				}
+				return false
+			}
+			all := len(returnsOf(sc)) > 0
+			for _, ret := range returnsOf(sc) {
+				if !onlyIf(retVals(ret)[0], 0) {
+					all = false
+				}
+			}
+			if all {
+				return true, false
 			}
 		}
 	}
@@ -1637,4 +1765,436 @@ func (r *Run) goroutineCtx(fn *ssa.Function) *ssa.Function {
 		fn = caller
 	}
 	return fn
+}
+
+// frameRead: the call reads a frame from a websocket connection — one of wsutil's reading
+// helpers, or a function of the module that hands back what such a call read (judged by its
+// body: a bytes or string result of one of its returns is the result of a frame read).
+func frameRead(c *ssa.CallCommon, depth int) bool {
+	if strings.Contains(calleeName(c), "wsutil.Read") {
+		return true
+	}
+	sc := c.StaticCallee()
+	if sc == nil || !inModule(sc) || sc.Blocks == nil || depth > 2 {
+		return false
+	}
+	for _, ret := range returnsOf(sc) {
+		for _, rv := range retVals(ret) {
+			_, isBytes := rv.Type().Underlying().(*types.Slice)
+			bt, isStr := rv.Type().Underlying().(*types.Basic)
+			if !isBytes && !(isStr && bt.Info()&types.IsString != 0) {
+				continue
+			}
+			v := unwrap(rv)
+			if ex, ok := v.(*ssa.Extract); ok {
+				v = ex.Tuple
+			}
+			if call, ok := v.(*ssa.Call); ok && frameRead(&call.Call, depth+1) {
+				return true
+			}
+		}
+	}
+	return false
+}
+
+// decodedBefore: every path from the start of block from reaches an instruction satisfying
+// isDecode before it comes to block next (the next read) or to a return of the function.
+func decodedBefore(from, next *ssa.BasicBlock, isDecode func(ssa.Instruction) bool) bool {
+	seen := map[*ssa.BasicBlock]bool{}
+	var visit func(b *ssa.BasicBlock) bool
+	visit = func(b *ssa.BasicBlock) bool {
+		if b == next {
+			return false
+		}
+		if seen[b] {
+			return true
+		}
+		seen[b] = true
+		for _, ins := range b.Instrs {
+			if isDecode(ins) {
+				return true
+			}
+			if _, isRet := ins.(*ssa.Return); isRet {
+				return false
+			}
+		}
+		for _, s := range b.Succs {
+			if !visit(s) {
+				return false
+			}
+		}
+		return true
+	}
+	return visit(from)
+}
+
+// sentErrorsAt: ins hands a response to the consumer — a send of a response built here, or a
+// call of a function of the module every path through which makes such a send (a local
+// `fail := func(errs) { resCh <- &Response{Errors: errs} }`, a named helper). It returns the
+// value the response's Errors field is given and the block in which that value is used, seen
+// from the side of ins: for a helper that sends what it is handed, the argument of the call.
+func (r *Run) sentErrorsAt(ins ssa.Instruction, depth int) (ssa.Value, *ssa.BasicBlock, bool) {
+	switch x := ins.(type) {
+	case *ssa.Send:
+		ev, ok := sentErrors(x.X)
+		return ev, x.Block(), ok
+	case *ssa.Call:
+		sc := x.Call.StaticCallee()
+		if sc == nil || !inModule(sc) || sc.Blocks == nil || depth > 1 {
+			return nil, nil, false
+		}
+		var ev ssa.Value
+		var at *ssa.BasicBlock
+		every, _ := mustPass(sc.Blocks[0], 0, func(i ssa.Instruction) bool {
+			if _, isSend := i.(*ssa.Send); !isSend {
+				if _, isCall := i.(*ssa.Call); !isCall || depth > 0 {
+					return false
+				}
+			}
+			v, b, ok := r.sentErrorsAt(i, depth+1)
+			if !ok {
+				return false
+			}
+			if ev != nil && ev != v {
+				ev, at = nil, nil // several sends of different lists: not a plain sender
+				return false
+			}
+			ev, at = v, b
+			return true
+		})
+		if !every || ev == nil {
+			return nil, nil, false
+		}
+		if p, isParam := unwrap(ev).(*ssa.Parameter); isParam && p.Parent() == sc {
+			idx := paramIndex(p)
+			if idx < 0 || idx >= len(x.Call.Args) {
+				return nil, nil, false
+			}
+			return x.Call.Args[idx], x.Block(), true
+		}
+		return ev, at, true
+	}
+	return nil, nil, false
+}
+
+// carriesError: the error list v, used in block at, is known to hold at least one error and no
+// nil entry on every path that leads there:
+//   - gqlerrors.FormatError of an error that is not nil (R6s: the formatter answers the empty
+//     list for the nil error only),
+//   - a literal list each element of which is not nil,
+//   - a list loaded from a decoded frame behind a test that it is non-empty and holds no null,
+//   - the result of a function of the module every return of which is such a list, a parameter
+//     every caller gives such a list, a variable every assignment of which is such a list.
+func (r *Run) carriesError(v ssa.Value, at *ssa.BasicBlock, depth int) bool {
+	if v == nil || depth > 5 {
+		return false
+	}
+	v = unwrap(v)
+	switch x := v.(type) {
+	case *ssa.Const:
+		return false
+	case *ssa.Phi:
+		for i, e := range x.Edges {
+			if !r.carriesError(e, x.Block().Preds[i], depth+1) {
+				return false
+			}
+		}
+		return len(x.Edges) > 0
+	case *ssa.Parameter:
+		n := 0
+		for _, site := range r.callSitesOf(x.Parent()) {
+			idx := paramIndex(x)
+			if site == nil || idx < 0 || idx >= len(site.Common().Args) {
+				return false
+			}
+			if !r.carriesError(site.Common().Args[idx], site.Block(), depth+1) {
+				return false
+			}
+			n++
+		}
+		return n > 0
+	case *ssa.Slice:
+		// a literal: `gqlerrors.ErrorList{a, b}` is a slice of a fresh array every element of
+		// which is stored once
+		arr, ok := x.X.(*ssa.Alloc)
+		if !ok || x.Low != nil || x.High != nil {
+			return false
+		}
+		at2, ok := derefType(arr.Type()).Underlying().(*types.Array)
+		if !ok || at2.Len() == 0 || arr.Referrers() == nil {
+			return false
+		}
+		filled := map[int64]bool{}
+		for _, ref := range *arr.Referrers() {
+			ia, ok := ref.(*ssa.IndexAddr)
+			if !ok {
+				continue
+			}
+			k, ok := ia.Index.(*ssa.Const)
+			if !ok || ia.Referrers() == nil {
+				return false
+			}
+			for _, r2 := range *ia.Referrers() {
+				st, ok := r2.(*ssa.Store)
+				if !ok || st.Addr != ssa.Value(ia) {
+					continue
+				}
+				if !r.notNilIn(st.Val, st.Block(), depth+1) {
+					return false
+				}
+				filled[k.Int64()] = true
+			}
+		}
+		return int64(len(filled)) == at2.Len()
+	case *ssa.Call:
+		if strings.HasSuffix(calleeName(&x.Call), "gqlerrors.FormatError") && len(x.Call.Args) == 1 {
+			return r.notNilIn(x.Call.Args[0], x.Block(), depth+1)
+		}
+		sc := x.Call.StaticCallee()
+		if sc == nil || !inModule(sc) || sc.Blocks == nil {
+			return false
+		}
+		rets := returnsOf(sc)
+		for _, ret := range rets {
+			vals := retVals(ret)
+			if len(vals) != 1 || !r.carriesError(vals[0], ret.Block(), depth+1) {
+				return false
+			}
+		}
+		return len(rets) > 0
+	}
+	counted, guarded := decodedListGuarded(at, v, 0)
+	return counted && guarded
+}
+
+// notNilIn: the pointer or interface v, used in block at, is known not to be nil there: a fresh
+// object, an error made by errors.New / fmt.Errorf, the result of a module function that only
+// returns such values, a value on the non-nil side of a test of it, a variable every
+// assignment of which is one of these.
+func (r *Run) notNilIn(v ssa.Value, at *ssa.BasicBlock, depth int) bool {
+	if v == nil || depth > 6 {
+		return false
+	}
+	if mi, ok := v.(*ssa.MakeInterface); ok {
+		switch mi.X.Type().Underlying().(type) {
+		case *types.Pointer, *types.Interface, *types.Slice, *types.Map, *types.Chan, *types.Signature:
+		default:
+			return true // a struct, a string, a number in an interface
+		}
+	}
+	v = unwrap(v)
+	switch x := v.(type) {
+	case *ssa.Alloc:
+		return true
+	case *ssa.Const:
+		return false
+	case *ssa.Phi:
+		for i, e := range x.Edges {
+			if !r.notNilIn(e, x.Block().Preds[i], depth+1) {
+				return false
+			}
+		}
+		return len(x.Edges) > 0
+	case *ssa.Call:
+		switch calleeName(&x.Call) {
+		case "errors.New", "fmt.Errorf":
+			return true
+		}
+		if sc := x.Call.StaticCallee(); sc != nil && inModule(sc) && sc.Blocks != nil {
+			rets := returnsOf(sc)
+			for _, ret := range rets {
+				vals := retVals(ret)
+				if len(vals) != 1 || !r.notNilIn(vals[0], ret.Block(), depth+1) {
+					return false
+				}
+			}
+			if len(rets) > 0 {
+				return true
+			}
+		}
+	}
+	// behind a test of the value itself (or of another load of the same variable or field)
+	if len(at.Instrs) == 0 {
+		return false
+	}
+	ok, _ := r.nonNilAt(v, at.Instrs[len(at.Instrs)-1])
+	return ok
+}
+
+// callSitesOf: the places where fn is called, when they can all be listed: plain, deferred or
+// spawned calls of the function or of a closure value that is only ever called. A nil entry
+// stands for a caller that cannot be listed (the function is handed to code outside the
+// module, or reaches its call through a parameter).
+func (r *Run) callSitesOf(fn *ssa.Function) []ssa.CallInstruction {
+	var out []ssa.CallInstruction
+	for _, e := range r.P.CG.In[origin(fn)] {
+		switch e.Kind {
+		case "static", "dynamic":
+			// the callee is the first operand of the call: the arguments line up with the parameters
+			out = append(out, e.Site)
+		case "hoarg":
+			// handed to a higher-order function of the module: the call inside it is listed on its
+			// own (kind param) and its arguments are the ones that count
+		case "param":
+			out = append(out, e.Site)
+		default:
+			out = append(out, nil)
+		}
+	}
+	return out
+}
+
+// endSignalled: target (the nil send, or the call of the helper that makes it) is executed on
+// every way out of the reader: it lies on every path through fn — but for the side of a test
+// of the handshake flag on which the flag is still false — and fn is a function that is
+// deferred ahead of every return of the function that defers it, or is itself called, in the
+// same way, from such a function.
+func (r *Run) endSignalled(fn *ssa.Function, target ssa.Instruction, depth int) bool {
+	if depth > 2 {
+		return false
+	}
+	n := 0
+	for _, e := range r.P.CG.In[origin(fn)] {
+		if e.Kind == "param" {
+			continue
+		}
+		if e.Kind != "static" && e.Kind != "dynamic" {
+			return false
+		}
+		n++
+		switch site := e.Site.(type) {
+		case *ssa.Defer:
+			// the arguments of a deferred call are evaluated when it is registered: a flag handed
+			// over as an argument would be the flag of that moment
+			if !r.onEveryPathButHandshake(fn, target, nil) {
+				return false
+			}
+			for _, ret := range returnsOf(e.Caller) {
+				if !instrDominates(site, ret) {
+					return false
+				}
+			}
+		case *ssa.Call:
+			if !r.onEveryPathButHandshake(fn, target, site) || !r.endSignalled(e.Caller, site, depth+1) {
+				return false
+			}
+		default:
+			return false
+		}
+	}
+	return n > 0
+}
+
+// onEveryPathButHandshake: every path from the entry of fn to a return passes target, apart
+// from paths that leave through the false side of a test of a handshake flag. A condition on a
+// parameter of fn is read as the argument of the call site.
+func (r *Run) onEveryPathButHandshake(fn *ssa.Function, target ssa.Instruction, site *ssa.Call) bool {
+	if len(fn.Blocks) == 0 {
+		return false
+	}
+	seen := map[*ssa.BasicBlock]bool{fn.Blocks[0]: true}
+	var visit func(b *ssa.BasicBlock) bool
+	visit = func(b *ssa.BasicBlock) bool {
+		for _, ins := range b.Instrs {
+			if ins == target {
+				return true
+			}
+			if _, isRet := ins.(*ssa.Return); isRet {
+				return false
+			}
+		}
+		exempt := -1
+		if iff, ok := b.Instrs[len(b.Instrs)-1].(*ssa.If); ok {
+			exempt = r.handshakeFalseSide(iff.Cond, fn, site)
+		}
+		for i, s := range b.Succs {
+			if i == exempt || seen[s] {
+				continue
+			}
+			seen[s] = true
+			if !visit(s) {
+				return false
+			}
+		}
+		return true
+	}
+	return visit(fn.Blocks[0])
+}
+
+// handshakeFalseSide: cond reads a handshake flag (or its negation); the index of the successor
+// taken while the flag is false, or -1.
+func (r *Run) handshakeFalseSide(cond ssa.Value, fn *ssa.Function, site *ssa.Call) int {
+	neg := false
+	for {
+		u, ok := cond.(*ssa.UnOp)
+		if !ok || u.Op != token.NOT {
+			break
+		}
+		neg = !neg
+		cond = u.X
+	}
+	if p, ok := cond.(*ssa.Parameter); ok && p.Parent() == fn && site != nil {
+		idx := paramIndex(p)
+		if idx < 0 || idx >= len(site.Call.Args) {
+			return -1
+		}
+		cond = site.Call.Args[idx]
+	}
+	ld, ok := cond.(*ssa.UnOp)
+	if !ok || ld.Op != token.MUL {
+		return -1
+	}
+	owner := cellOwner(ld.X)
+	if owner == nil || !handshakeFlag(owner) {
+		return -1
+	}
+	if neg {
+		return 0
+	}
+	return 1
+}
+
+// handshakeFlag: a boolean variable that starts as false in the function that declares it
+// and is assigned in one other place only: in the reader, outside any loop, before the first
+// frame is read (`started = true`, `started = err == nil`). Nothing that happens while frames
+// are read can change it; while it is false the consumer has not been told that the
+// subscription stands, so there is nobody to tell that it is over.
+func handshakeFlag(owner *ssa.Alloc) bool {
+	bt, ok := derefType(owner.Type()).Underlying().(*types.Basic)
+	if !ok || bt.Kind() != types.Bool {
+		return false
+	}
+	var set *ssa.Store
+	var initial []*ssa.Store
+	for _, st := range storesTo(owner) {
+		if k, ok := st.Val.(*ssa.Const); ok && k.Value != nil && k.Value.ExactString() == "false" {
+			initial = append(initial, st)
+			continue
+		}
+		if set != nil {
+			return false
+		}
+		set = st
+	}
+	if set == nil || inAnyLoop(set.Block()) {
+		return false
+	}
+	for _, st := range initial {
+		if st.Parent() != owner.Parent() || inAnyLoop(st.Block()) {
+			return false
+		}
+		if st.Parent() == set.Parent() && !instrDominates(st, set) {
+			return false // reset after it was set
+		}
+	}
+	reads := 0
+	for _, ins := range allInstrs(set.Parent()) {
+		if c, ok := ins.(*ssa.Call); ok && frameRead(&c.Call, 0) {
+			reads++
+			if !instrDominates(set, c) {
+				return false
+			}
+		}
+	}
+	return reads > 0
 }
